@@ -9,7 +9,7 @@ import (
 func init() {
 	register(&PropDoc{
 		ID:         "C12",
-		Modules:    []string{"sdk/metric"},
+		Modules:    []string{"sdk/metric", "."},
 		NotDecided: "totals conserved as numbers; view criteria matching (NewView wildcard logic); re-admission after a delta reset as behaviour (decided: the limiter is consulted against the live map under the lock).",
 		Fn:         c12,
 	})
@@ -340,5 +340,22 @@ func c12(c *Ctx) {
 			})
 			c.Check(ok, "R5", "sdk/metric|(*inserter).cachedAggregator|addSync only for a non-nil measure", mx.at(s), "drop aggregation registers nothing", "a dropped stream is registered for collection: "+why)
 		}
+	}
+
+	// the attribute filter hands the aggregators a set whose identity must be that of the canonical set with the same contents
+	// (attribute/set.go is among this property's anchors): kept attributes stay in key order
+	// views: whatever aggregate inputs an inserter could build for a reader are wired to the instrument, also when it reports an
+	// error for another view of the same instrument next to them (the clause "re-aggregating views neither lose nor duplicate
+	// measurements"; same rule as C02.R5 for these two sites)
+	c.Rule("R7", "E3 total fan-out", "resolver.Aggregators / HistogramAggregators append the measures of every reader pipeline on every iteration, error or not", 2)
+	isAppendMeasures := func(info *types.Info, call *ast.CallExpr) bool {
+		return builtinName(info, call) == "append" && call.Ellipsis.IsValid()
+	}
+	ruleFanout(c, mx, "R7", "resolver.Aggregators", isAppendMeasures, "append(measures, in...)")
+	ruleFanout(c, mx, "R7", "resolver.HistogramAggregators", isAppendMeasures, "append(measures, in...)")
+
+	c.Rule("R6", "E4 callee identity", "Set.Filter / NewSetWithFiltered keep the kept attributes in key order (no unstable sort over attribute slices): streams that become identical under a view's filter get the same identity and are added together", 1)
+	if atx := c.Index(".", otelAttr); atx != nil {
+		ruleNoUnstableAttrSort(c, atx, "R6")
 	}
 }
